@@ -1,7 +1,7 @@
 #!/bin/bash
 # re-verify every seeded change (demo clean/patched, named tests on the patched tree, the property's check); results in meta.json + out/seedtests
+# usage: harness/seed_all.sh [parallelism]   (env SEEDS=0,1 ; NOTESTS=1 skips the test modules)
 cd "$(dirname "$0")/.."
-for d in seeded/*/; do
-  n=$(basename "$d")
-  /venv/bin/python harness/seedtest.py "$n" --tests --seeds "${SEEDS:-0}" 2>&1 | grep "^SEED"
-done
+mkdir -p out/seedtests
+T="--tests"; [ -n "$NOTESTS" ] && T=""
+ls seeded | xargs -P "${1:-4}" -I{} sh -c "/venv/bin/python harness/seedtest.py {} $T --seeds ${SEEDS:-0} > out/seedtests/{}.log 2>&1; grep '^SEED' out/seedtests/{}.log"
